@@ -823,17 +823,20 @@ func findSegmentData(segs []*MediaSegment, refTrak *TrakBox, trex *TrexBox) ([]s
 		dur := uint32(0)
 		var baseTime uint64
 		for fIdx, frag := range seg.Fragments {
+			nrRefTrafs := 0 // A moof may hold more than one traf of the reference track
 			for _, traf := range frag.Moof.Trafs {
 				tfhd := traf.Tfhd
 				if tfhd.TrackID == refTrak.Tkhd.TrackID { // Find track that gives sidx time values
-					if fIdx == 0 {
+					nrRefTrafs++
+					firstRefTraf := fIdx == 0 && nrRefTrafs == 1 // The segment's times come from the first one
+					if firstRefTraf {
 						baseTime = traf.Tfdt.BaseMediaDecodeTime()
 					}
 					for i, trun := range traf.Truns {
 						trun.AddSampleDefaultValues(tfhd, trex)
 						samples := trun.GetSamples()
 						for j, sample := range samples {
-							if fIdx == 0 && i == 0 && j == 0 {
+							if firstRefTraf && i == 0 && j == 0 {
 								firstCompositionTimeOffest = int64(sample.CompositionTimeOffset)
 							}
 							dur += sample.Dur
